@@ -192,6 +192,6 @@ def gen_natural(bound):
 def phases(tier):
     quick = tier == 'quick'
     return [
-        Phase('fault-placements', check_fault, gen=gen_faults(3 if quick else 5), exhaustive=True),
-        Phase('natural-faults', check_natural, gen=gen_natural(2 if quick else 4), exhaustive=True),
+        Phase('fault-placements', check_fault, gen=gen_faults(3 if quick else 6), exhaustive=True),
+        Phase('natural-faults', check_natural, gen=gen_natural(2 if quick else 6), exhaustive=True),
     ]
